@@ -180,3 +180,21 @@ Definition chk_fragment (l : list ginput) : Z :=
   1000000000000000 * Z.of_nat (covered_prefix2 trees) +
   10000000000 * Z.of_nat (covered_prefix trees) +
   100000 * Z.of_nat (count_fragment trees true []) + Z.of_nat (List.length trees).
+
+(* ---- C16: the session in value mode and in file mode, each from the fresh machine ---- *)
+(* the first tree is run in either mode from the fresh machine; if the two machines pass start_ok_modes, the
+   two-machine session theorem applies to the counted prefix of the remaining trees, value mode on the one and
+   file mode on the other *)
+Definition covered_modes (trees : list node) : nat :=
+  match machine_new, trees with
+  | Some mc0, t1 :: r =>
+      if start_ok_modes (fst (run_tree false mc0 t1)) (fst (run_tree true mc0 t1))
+      then prefix_ok (session_names trees) r (match lambda_def t1 with Some f => [f] | None => [] end)
+      else 0
+  | _, _ => 0
+  end.
+
+(* 100000 * (trees covered) + (all trees) *)
+Definition chk_modes (l : list ginput) : Z :=
+  let trees := List.concat (map g_trees l) in
+  100000 * Z.of_nat (covered_modes trees) + Z.of_nat (List.length trees).
